@@ -7,6 +7,9 @@ use crate::MAX_FRAME_WINDOW_SIZE;
 use crate::packet_id;
 
 use super::pending_packet;
+
+#[cfg(feature = "uflow_verif")]
+use crate::verif::rand;
 use super::frame_queue;
 
 #[derive(Debug,PartialEq)]
